@@ -137,6 +137,11 @@ func (vc *VC) call(ins ssa.Instruction, c *ssa.CallCommon, v *ssa.Call) {
 	// every call may allocate
 	oldTop := vc.getComp("top", "Int")
 	preHeap := vc.heap.clone()
+	if spec == nil && staticFn != nil && strings.HasPrefix(calleePkg, repoModule) {
+		if vc.inlineCall(staticFn, args, v) {
+			return
+		}
+	}
 	if spec == nil {
 		vc.defaultEffect(c, key, calleePkg, staticFn)
 		nt := vc.havocComp("top", "Int")
@@ -250,6 +255,14 @@ func (vc *VC) call(ins ssa.Instruction, c *ssa.CallCommon, v *ssa.Call) {
 			vc.fail("call %s ensures#%d: %v", shortKey(key), i+1, err)
 		}
 		vc.assume(t)
+	}
+	for i, en := range spec.Assumed {
+		t, err := post.evalBool(en.Expr)
+		if err != nil {
+			vc.fail("call %s assumes#%d: %v", shortKey(key), i+1, err)
+		}
+		vc.assume(t)
+		vc.trusted["assumed postcondition of "+shortKey(spec.Key)+": "+en.Text] = true
 	}
 }
 
@@ -1158,4 +1171,161 @@ func (vc *VC) setGhost(env *SpecEnv, gs GhostSet) error {
 	}
 	vc.setComp("G|"+gs.Name, s, t.S)
 	return nil
+}
+
+// inlinable: a repo function without contract that can be verified as part of its caller: it has a body, no loops,
+// no defers / goroutines / selects, and is small.
+func inlinable(fn *ssa.Function) bool {
+	if len(fn.Blocks) == 0 || fn.Recover != nil {
+		return false
+	}
+	n := 0
+	for _, b := range fn.Blocks {
+		for _, s := range b.Succs {
+			if s.Dominates(b) {
+				return false // loop
+			}
+		}
+		for _, ins := range b.Instrs {
+			n++
+			switch ins.(type) {
+			case *ssa.Defer, *ssa.Go, *ssa.Select, *ssa.RunDefers:
+				return false
+			}
+		}
+	}
+	return n <= 250
+}
+
+// inlineCall verifies a call to a contract-less repo function against the callee's *body* (an extracted helper
+// without its own contract does not break the caller's proof, and a bug inside it is attributed to the caller's
+// obligations). Returns false when the callee cannot be inlined.
+func (vc *VC) inlineCall(fn *ssa.Function, args []Term, v *ssa.Call) bool {
+	if vc.inlDepth >= 2 || !inlinable(fn) || len(args) != len(fn.Params) {
+		return false
+	}
+	ch := *vc
+	ch.fn, ch.key, ch.spec = fn, funcKey(fn), nil
+	if fn.Pkg != nil {
+		ch.pkg = fn.Pkg.Pkg
+	}
+	ch.vals, ch.tuples, ch.addrs = map[ssa.Value]Term{}, map[ssa.Value][]Term{}, map[ssa.Value]*Addr{}
+	ch.heapOut, ch.reach, ch.edgeTerm = map[int]Heap{}, map[int]string{}, map[[2]int]string{}
+	ch.defers, ch.rets = nil, nil
+	ch.inl, ch.posBlk, ch.inlDepth = true, vc.wblk(), vc.inlDepth+1
+	(*vc.ctr)++
+	ch.pfx = fmt.Sprintf("i%d_", *vc.ctr)
+	ch.analyzeCFG()
+	if len(ch.loops) > 0 {
+		return false
+	}
+	ch.findLocalAllocs()
+	for i, p := range fn.Params {
+		ch.vals[p] = Term{S: args[i].S, Sort: args[i].Sort, T: p.Type()}
+	}
+	ch.heap = vc.heap.clone()
+	ch.curBlk, ch.curIdx = 0, -1
+	ch.reach[0] = vc.reach[vc.curBlk]
+	ch.runBlocks()
+	// copy back what the child appended
+	vc.decls, vc.facts, vc.obls, vc.unsupp = ch.decls, ch.facts, ch.obls, ch.unsupp
+	vc.useRoot = vc.useRoot || ch.useRoot
+	vc.trusted["callee without contract verified against its body (inlined): "+shortKey(funcKey(fn))] = true
+	if len(ch.rets) == 0 {
+		// the callee never returns normally (panics on every path)
+		vc.reach[vc.curBlk] = "false"
+		return true
+	}
+	var gs []string
+	for _, r := range ch.rets {
+		gs = append(gs, r.guard)
+	}
+	// results
+	nres := fn.Signature.Results().Len()
+	var res []Term
+	for k := 0; k < nres; k++ {
+		ty := fn.Signature.Results().At(k).Type()
+		term := ch.rets[len(ch.rets)-1].results[k].S
+		for i := len(ch.rets) - 2; i >= 0; i-- {
+			term = fmt.Sprintf("(ite %s %s %s)", gs[i], ch.rets[i].results[k].S, term)
+		}
+		name := vc.fresh("inlres")
+		vc.define(name, vc.sortOf(ty), term)
+		res = append(res, Term{S: name, Sort: vc.sortOf(ty), T: ty})
+	}
+	if v != nil {
+		if nres == 1 {
+			vc.vals[v] = Term{S: res[0].S, Sort: res[0].Sort, T: v.Type()}
+		} else if nres > 1 {
+			vc.tuples[v] = res
+		}
+	}
+	// heap: merge the heaps of the return sites
+	merged := ch.rets[0].heap.clone()
+	if len(ch.rets) > 1 {
+		sameEpoch := true
+		keys := map[string]bool{}
+		for _, r := range ch.rets {
+			if r.heap.epoch != ch.rets[0].heap.epoch {
+				sameEpoch = false
+			}
+			for k := range r.heap.m {
+				keys[k] = true
+			}
+		}
+		if !sameEpoch {
+			for k := range vc.comps {
+				keys[k] = true
+			}
+			(*vc.ctr)++
+			merged = Heap{m: map[string]string{}, epoch: *vc.ctr}
+		}
+		var ks []string
+		for k := range keys {
+			ks = append(ks, k)
+		}
+		sort.Strings(ks)
+		for _, k := range ks {
+			cmp := vc.comps[k]
+			if cmp == nil || cmp.sort == "" {
+				continue
+			}
+			var vs []string
+			same := true
+			for _, r := range ch.rets {
+				x := vc.getCompIn(r.heap, k, cmp.sort)
+				vs = append(vs, x)
+				if x != vs[0] {
+					same = false
+				}
+			}
+			if same {
+				merged.m[k] = vs[0]
+				continue
+			}
+			term := vs[len(vs)-1]
+			for i := len(vs) - 2; i >= 0; i-- {
+				term = fmt.Sprintf("(ite %s %s %s)", gs[i], vs[i], term)
+			}
+			name := vc.fresh(fmt.Sprintf("Hi_%d", cmp.id))
+			vc.define(name, cmp.sort, term)
+			merged.m[k] = name
+			vc.noteWrite(k)
+		}
+	}
+	for k := range merged.m {
+		if merged.m[k] != vc.heap.m[k] {
+			vc.noteWrite(k)
+		}
+	}
+	vc.heap = merged
+	// control continues only where the callee returned
+	rn := vc.fresh("Rinl")
+	if len(gs) == 1 {
+		vc.define(rn, "Bool", gs[0])
+	} else {
+		vc.define(rn, "Bool", "(or "+strings.Join(gs, " ")+")")
+	}
+	vc.reach[vc.curBlk] = rn
+	return true
 }
